@@ -1,4 +1,4 @@
-import Litep2pVerif.Proofs.Notif.Inv
+import Litep2pVerif.Proofs.Notif.Shape
 /-!
 Helper lemmas for C11, part 2: what every handler does to each environment component (pending ids,
 requested ids, handshake entries, validation futures, the user-channel ledgers), as pure statements about
